@@ -364,6 +364,27 @@ def predicate(case, stats):
         elif not json_identical(have, declared):
             fails.append({"sub": "parse", "kind": "default-altered-by-parser", "declared": declared,
                           "got": repr(have)[:100]})
+        elif isinstance(declared, (list, dict)) and not isinstance(target, ObjectMeta):
+            # a sequence: the default is USED (value omitted), the caller edits what came back, and the element must
+            # still carry the default it was declared with - when the default is valid for the element (an invalid
+            # one is handed back as-is, says C05)
+            supplied = observe.verdict(target, copy.deepcopy(declared))
+            if supplied[0] == "ok":
+                try:
+                    with warnings.catch_warnings():
+                        warnings.simplefilter("ignore")
+                        used = target(NotPassed())
+                    if isinstance(used, list):
+                        used.append("edited by the caller")
+                    elif isinstance(used, dict):
+                        used["edited by the caller"] = True
+                except Exception:  # noqa: BLE001 - not this check's subject
+                    used = None
+                after = getattr(target, "default", NotPassed())
+                if isinstance(after, NotPassed) or not json_identical(after, declared):
+                    fails.append({"sub": "use", "kind": "default-changed-by-editing-the-value-it-produced",
+                                  "declared": declared, "now": repr(after)[:100]})
+                    target.default = copy.deepcopy(declared)
     # every sibling / enclosing position: defaults stay where they were declared (never moved or shared)
     def positions(sch, prefix):
         if isinstance(sch, dict) and isinstance(sch.get("properties"), dict) and (
